@@ -175,6 +175,41 @@ def parallel_completion_on_partial_configuration(rep, fb, rule):
     rep.minimum(rule, sites, 1, 'done-event sites for parallel states in FastMicroStep::step')
 
 
+def audit_rules_c03(rep, fb):
+    """R03.12 - R03.14 (audit round)"""
+    rep.rule('R03.12', 'set-valued relations are filled by index: FastMicroStep::init sets a state\'s completion bits per element (by the element\'s document order), not by one merge pass that assumes the list comes in document order (an initial attribute lists its ids in token order)')
+    rep.rule('R03.13', 'deserialize starts from a reset engine in both engines: the call of reset() dominates every restore (flags, loop-detection set and cancel request of an interpreter that has already run must not survive)')
+    rep.rule('R03.14', 'a state string names the engine that wrote it: both engines write their name and refuse another engine\'s string (the two use different encodings under the same keys)')
+    fi = fb.fn('uscxml::FastMicroStep::init')
+    merges = []
+    for n in fi.walk():
+        if n['k'] == 'CXXMemberCallExpr' and n.get('callee', {}).get('q', '').split('::')[-1] in ('pop_front', 'front') and n['c'][0].get('c'):
+            b = strip(n['c'][0]['c'][0])
+            if b is not None and b['k'] == 'DeclRefExpr' and 'ompletion' in (b['ref'].get('name') or ''):
+                lp = next((a_ for a_ in fi.ancestors(n) if a_['k'] in ('ForStmt', 'WhileStmt')), None)
+                if lp is not None and any(x['k'] == 'MemberExpr' and x['ref'].get('name') == '_states' for x in sub(lp['c'][2] if lp['k'] == 'ForStmt' and len(lp['c']) > 2 and lp['c'][2] is not None else lp['c'][0])):
+                    merges.append(n)
+    rep.check(not merges, 'R03.12', 'FastMicroStep::init|completion', locstr(merges[0]) if merges else fi.where(), 'the completion bits are set %s' % (
+        'per element' if not merges else 'by ONE PASS over the states that consumes the front of the completion list: for <state initial="b2 a2"> (token order, not document order) a2 is never reached, the fast engine enters the default a1 where the large engine enters a2'))
+    from .. import cfg as cfgm2
+    for eng in ('uscxml::LargeMicroStep', 'uscxml::FastMicroStep'):
+        d = fb.fn(eng + '::deserialize')
+        g = cfgm2.CFG(d)
+        resets = [n for n in d.walk() if n['k'] == 'CXXMemberCallExpr' and n.get('callee', {}).get('q', '') == eng + '::reset' and n['id'] in g.pos]
+        restores = [n for n in d.walk() if n['k'] in ('CXXOperatorCallExpr', 'BinaryOperator') and n.get('op') == '=' and n['id'] in g.pos and any(
+            x['k'] == 'MemberExpr' and x['ref'].get('name') in ('_configuration', '_history', '_invocations', '_initializedData') for x in sub(n['c'][1] if n['k'] == 'CXXOperatorCallExpr' else n['c'][0]))] + [
+            n for n in d.walk() if n['k'] == 'CXXMemberCallExpr' and n.get('callee', {}).get('q', '').split('::')[-1] == 'insert' and n['id'] in g.pos and n['c'][0].get('c') and any(
+                x['k'] == 'MemberExpr' and x['ref'].get('name') in ('_configuration', '_history', '_invocations', '_initializedData') for x in sub(n['c'][0]['c'][0]))]
+        ok = bool(resets) and all(any(g.dominates(r_['id'], x['id']) for r_ in resets) for x in restores) and bool(restores)
+        rep.check(ok, 'R03.13', eng.split('::')[-1] + '::deserialize', d.where(), '%s::deserialize %s' % (eng.split('::')[-1], 'resets the engine before it restores' if ok else
+                  'restores WITHOUT resetting first: restored into an interpreter that has already run, the finished / stable / cancelled flags survive (the fast engine keeps answering FINISHED while reporting the restored configuration; the large engine resets)'))
+        w = fb.fn(eng + '::serialize')
+        tag_w = any(x['k'] == 'StringLiteral' and x.get('str') == 'engine' for x in w.walk())
+        tag_r = any(x['k'] == 'StringLiteral' and x.get('str') == 'engine' for x in d.walk()) and any(x['k'] == 'CXXThrowExpr' for x in d.walk())
+        rep.check(tag_w and tag_r, 'R03.14', eng.split('::')[-1], w.where(), '%s writes its name into the state string: %s; refuses a foreign string: %s%s' % (eng.split('::')[-1], tag_w, tag_r,
+                  '' if tag_w and tag_r else ' -- a fast string restored by the large engine gives an empty configuration without error, a large string restored by the fast engine throws std::length_error'))
+
+
 def fast_conflict_terms(fb, fi_):
     """terms under which FastMicroStep::init stores `true` into the conflict matrix.  Form-independent: a leaf condition of
     the per-pair loop is a term iff on every CFG path on which it evaluates to true the value stored into conflicts[j] is true
@@ -260,6 +295,7 @@ def run(rep, tier):
     rep.rule('R03.4', 'both engines use all terms of the conflict definition: the fast engine\'s precomputed matrix (same source, source ancestry both ways, exit-set overlap both ways) and the large engine\'s lazily filled cache (source ancestry both ways, exit-set overlap both ways)')
     rep.rule('R03.8', 'the large engine\'s lazily filled conflict cache is used like the fast engine\'s matrix: per step the compatible set only narrows (intersection) and the conflicting set only grows (same rule as C01 R01.14)')
     rep.rule('R03.7', 'both engines compare the closed exit intervals with non-strict comparisons (overlap and membership tests)')
+    rep.rule('R03.15', 'eventless is decided like the generated code decides it: by the type bit from the presence of the event attribute (same rule as C12 R12.9)')
     rep.rule('R03.11', 'done.state of a parallel is judged on a complete picture: the engines do not decide "all regions are final" from a configuration that the same loop is still extending')
     rep.rule('R03.10', 'every active state is asked for transitions in the large engine too: the selection loop skips entries of the post-fix view only relative to the state just handled (same rule as C01 R01.19)')
     rep.rule('R03.9', 'closures are complete in both engines: set-valued relations are used whole, ancestor passes do not re-seat their iterator at an insertion, deep completion adds the ancestors of every member (same rules as C02 R02.11 / R02.12); a closure that one engine cuts short is an engine difference')
@@ -360,7 +396,18 @@ def run(rep, tier):
         import re as _re
         NOISE = {'cause', 'file', 'line', 'xpath', 'caption'}
         def keyset(fn):
-            return sorted({s['str'] for s in fn.walk() if s['k'] == 'StringLiteral' and 'str' in s and _re.match(r'^[A-Za-z]+$', s['str']) and s['str'] not in NOISE and not any(m[0].startswith('ERROR_') for m in (s.get('mac') or []))})
+            # keys: literals that subscript a Data (operator[]) or are asked for with hasKey; values such as the engine's own name are not keys
+            ks = set()
+            for n_ in fn.walk():
+                is_key_ctx = (n_['k'] == 'CXXOperatorCallExpr' and n_.get('op') == '[]') or (n_['k'] == 'CXXMemberCallExpr' and n_.get('callee', {}).get('q', '').endswith('Data::hasKey'))
+                if not is_key_ctx:
+                    continue
+                args_ = n_['c'][2:] if n_['k'] == 'CXXOperatorCallExpr' else n_['c'][1:]
+                for a_ in args_:
+                    for s_ in sub(a_):
+                        if s_['k'] == 'StringLiteral' and 'str' in s_ and _re.match(r'^[A-Za-z]+$', s_['str']) and s_['str'] not in NOISE:
+                            ks.add(s_['str'])
+            return sorted(ks)
         keys_[e] = (keyset(ser), keyset(de))
     both('members re-initialised by reset()', cov[L], cov[F])
     both('serialization keys (written, read)', tuple(k for k in keys_[L]), tuple(k for k in keys_[F]), detail=lambda x: str(x)[:200])
@@ -387,6 +434,11 @@ def run(rep, tier):
             rep.ok('R03.7', sk[e].eng, '%d endpoint comparisons, all non-strict' % len(cmps))
     # ---- R03.6 children relation of the fast engine
     fast_children(rep, fb, 'R03.6')
+    # ---- R03.15 (shared with C12 R12.9)
+    from .C12 import eventless_by_type_bit
+    eventless_by_type_bit(rep, 'R03.15')
+    # ---- R03.12 .. R03.14
+    audit_rules_c03(rep, fb)
     # ---- R03.11
     parallel_completion_on_partial_configuration(rep, fb, 'R03.11')
     # ---- R03.10 every active state is asked for transitions (shared with C01 R01.19; the fast engine walks a bitset by index)
